@@ -18,6 +18,7 @@ From HT Require Import Model.Str Model.Tree Model.Deps Spec.ResolveSpec Proofs.D
    itself, an element yields what its children yield (any depth), everything else
    (text, HTML, objects that are not Tags) yields nothing, siblings concatenate in
    order; equivalently collect is the pre-order list of the dependency payloads. *)
+From HT Require Gen.Tables.
 Theorem C10_collect_preorder :
   (forall l1 l2, collect (l1 ++ l2) = collect l1 ++ collect l2) /\
   (forall name ws a kids, collect [TagN name ws a kids] = collect kids) /\
@@ -196,6 +197,19 @@ Definition ex_div (kids : list (node dep)) : node dep := TagN [100;105;118] true
 
 (* b first (first occurrence), a represented by 1.10 (not 1.9, and not the later equal
    1.10.0); b by the earlier of 1 and 1.0 *)
+(* The key lists the constructor really checks, regenerated from the source of
+   HTMLDependency.__init__ on every run, are the ones the model of the validation uses:
+   script needs src; stylesheet needs href; meta needs name and content (in that order);
+   a source needs href or subdir. *)
+Theorem C10_required_keys_of_the_code :
+  HT.Gen.Tables.dep_required_keys
+  = [([115;99;114;105;112;116], [k_src]);
+     ([115;116;121;108;101;115;104;101;101;116], [k_href]);
+     ([109;101;116;97], [k_name; k_content])]
+  /\ HT.Gen.Tables.dep_source_keys = [k_href; k_subdir].
+Proof. split; reflexivity. Qed.
+Print Assumptions C10_required_keys_of_the_code.
+
 Example C10_example_resolve :
   get_dependencies true
     [ex_div [Meta ex_b1; ex_div [Text [120]; Meta ex_a19]]; Meta ex_a110;
